@@ -72,6 +72,12 @@ func (e *Engine) callBuiltin(caller *frame, pos token.Pos, fn *ssa.Builtin, args
 	case "len":
 		switch x := args[0]; x.K {
 		case KStr, KSymStr:
+			if isOpaqueStr(x) {
+				// the real length is unknown: an unconstrained non-negative value (over-approximation)
+				v := e.freshVar("opaquelen", 64)
+				e.assume(e.ts.Cmp(OpUle, v, e.ts.Const(1<<16, 64)))
+				return vSym(v)
+			}
 			return vInt(int64(strLen(x)))
 		case KArray:
 			return vInt(int64(len(x.P.([]V))))
